@@ -150,6 +150,58 @@ class VC:
             lines.append("(assert (or " + " ".join(ds) + "))")
         return "\n".join(lines) + "\n(check-sat)\n"
 
+    # ------------------------------------------------------------------ inequalities (dimension-1 sign claims)
+    def nonneg_text(self, expr, instances):
+        """SMT text asserting  expr < 0  where expr = r + sum_H c_H ln|H| (c_H, r rational functions).
+        Every ln atom becomes a real variable w_H; the only facts given about ln are the instances
+        ln t <= t - 1 and ln(1/t) <= 1/t - 1 for the listed positive t (valid for all t > 0)."""
+        from .symdom import Unsupported
+        ctx = self.ctx
+        atoms = {}
+
+        def w(H):
+            if H not in atoms:
+                atoms[H] = f"w!{len(atoms)}"
+            return atoms[H]
+
+        def lin(sexpr):
+            terms = []
+            for (e, sq, ln), c in sexpr.t.items():
+                if e != 0 or sq:
+                    raise Unsupported("inequality claim with exp/sqrt atoms")
+                if not ln:
+                    terms.append(self.kexpr(c))
+                    continue
+                if len(ln) != 1:
+                    raise Unsupported("inequality claim with product of ln atoms")
+                (H, p), = ln
+                if p != 1:
+                    raise Unsupported("inequality claim with ln power")
+                terms.append(f"(* {self.kexpr(c)} {w(H)})")
+            if not terms:
+                return "0.0"
+            return terms[0] if len(terms) == 1 else "(+ " + " ".join(terms) + ")"
+
+        body = []
+        e_smt = lin(expr)
+        for t in instances:
+            for tt in (t, t.inv()):
+                lt = lin(tt.log())
+                k = tt.ratpart()
+                body.append(f"(assert (<= {lt} (- {self.kexpr(k)} 1.0)))")
+                body.append(f"(assert (> {self.sign_expr(k)} 0.0))")
+        lines = self.header()
+        for H, name in atoms.items():
+            lines.append(f"(declare-fun {name} () Real)")
+            if isinstance(H, int):
+                lo = Fraction(math.log(H)) - Fraction(1, 10**9)
+                hi = Fraction(math.log(H)) + Fraction(1, 10**9)
+                lines.append(f"(assert (and (> {name} {_num(lo)}) (< {name} {_num(hi)})))")
+        # denominators of divisions must be non-zero: they are products of positive quantities here
+        lines += body
+        lines.append(f"(assert (< {e_smt} 0.0))")
+        return "\n".join(lines) + "\n(check-sat)\n"
+
     # ------------------------------------------------------------------ solving
     @staticmethod
     def z3_check(text, timeout_ms=60000, want_model=False):
